@@ -337,24 +337,26 @@ def run(ctx):
                                 "implementation": {"upper": obs["upper"], "sym": obs["sym"], "containers": [(p, o) for p, o, _ in obs["conts"]]},
                                 "model": model}), False)
 
-    # the classification of further strings: the implementation's branch is observed through the container's Q
-    probe = [[Fraction(1), Fraction(2)], [Fraction(4), Fraction(8)]]
-    want = {1: [[1, 6], [0, 8]], 2: [[1, 3], [3, 8]], 0: [[1, 2], [4, 8]]}
+    # the classification of further strings: the branch taken by the implementation is recognised by comparing the
+    # container's Q with the implementation's own to_upper_triangular / to_symmetric of a probe matrix
+    probe = np.array([[1.0, 2.0], [4.0, 8.0]])
+    branch = {1: fr_mat(qt.to_upper_triangular(probe)), 2: fr_mat(qt.to_symmetric(probe)), 0: fr_mat(probe)}
     cterms, cobs = [], []
-    for p in PATTERNS + EXTRA_PATTERNS:
-        C = qt.QUBOContainer(np.array([[float(t) for t in r] for r in probe]), 0.0, p)
-        got = fr_mat(C.Q)
-        code = [k_ for k_, w in want.items() if got == [[Fraction(t) for t in r] for r in w]]
-        code = code[0] if code else 9
-        cobs.append((p, code))
-        cterms.append(lit.pair(slit(p), lit.nat(code)))
-        if code != classify(p):
-            ctx.violation("oracle/pattern-dispatch", f"pattern {p!r} selected branch {code}, expected {classify(p)}",
-                          {"pattern": p, "container_Q": jsonable(got)}, True)
-    mism2, err2 = ctx.coq_mismatches("classify", HEADER, "string * nat", "check_classify", cterms)
-    for idx, tags in mism2[:2]:
-        ctx.violation("correspondence/classify", f"model classify and the implementation disagree on pattern {cobs[idx][0]!r}",
-                      {"pattern": cobs[idx][0], "implementation_branch": cobs[idx][1]}, False)
+    if branch[0] != branch[1] and branch[0] != branch[2] and branch[1] != branch[2]:
+        for p in PATTERNS + EXTRA_PATTERNS:
+            got = fr_mat(qt.QUBOContainer(probe.copy(), 0.0, p).Q)
+            code = [k_ for k_, w in branch.items() if got == w]
+            code = code[0] if code else 9
+            cobs.append((p, code))
+            cterms.append(lit.pair(slit(p), lit.nat(code)))
+            if code != classify(p):
+                ctx.violation("oracle/pattern-dispatch", f"pattern {p!r} selected branch {code}, expected {classify(p)} "
+                              "(1 upper-triangular, 2 symmetric, 0 as given, 9 none of them)",
+                              {"pattern": p, "container_Q": jsonable(got), "matrix": [[1, 2], [4, 8]]}, True)
+        mism2, err2 = ctx.coq_mismatches("classify", HEADER, "string * nat", "check_classify", cterms)
+        for idx, tags in mism2[:2]:
+            ctx.violation("correspondence/classify", f"model classify and the implementation disagree on pattern {cobs[idx][0]!r}",
+                          {"pattern": cobs[idx][0], "implementation_branch": cobs[idx][1]}, False)
     dist["pattern_strings_classified"] = len(cterms)
     if ctx.tier == "thorough":
         ctx.coqchk("VQP.C13")
